@@ -24,7 +24,7 @@ META = dict(
               "(singles and pairs of neighbouring gaps) of a 47-cdef corpus, differential against the un-inserted cdef",
     text="At every gap between two tokens of each corpus cdef (tokenizer independent of pycparser; '...', string "
          "literals and '#define' kept whole; line directives are one token) each of ' ', tab, newline, '/**/', "
-         "'/* ; { */', '// x<nl>', '<nl># 7 \"f.h\"<nl>' and, inside #define lines, backslash-newline is inserted: all "
+         "'/* ; { */', '// x<nl>', '<nl># 7 \"f//g...h\"<nl>' (a file name the comment and '...' regexes would mangle if it were not protected) and, inside #define lines, backslash-newline is inserted: all "
          "single insertions and all ordered pairs at gap distance <=1 (thorough <=2).  The resulting declarations, "
          "integer constants, struct layouts and the bytes written by emit_c_code()/emit_python_code() must equal those "
          "of the original text.",
@@ -34,7 +34,7 @@ META = dict(
 
 INS = collections.OrderedDict([
     ("sp", " "), ("tab", "\t"), ("nl", "\n"), ("cmt", "/**/"), ("cmt2", "/* ; { */"),
-    ("lcmt", "// x\n"), ("linedir", '\n# 7 "f.h"\n'), ("cont", "\\\n"),
+    ("lcmt", "// x\n"), ("linedir", '\n# 7 "f//g...h"\n'), ("cont", "\\\n"),
 ])
 NEWLINE_BEARING = ("nl", "lcmt", "linedir")
 INS_CLASS = {"sp": "space", "tab": "space", "nl": "newline", "cmt": "comment", "cmt2": "comment",
@@ -279,10 +279,7 @@ def entry(i):
 
 def base_of(i):
     if i not in _bases:
-        b = snapshot(CORPUS[i][1])
-        if b["cdef"][0] != "ok":
-            raise InfraError("corpus entry %s is not accepted: %r" % (CORPUS[i][0], b["cdef"]))
-        _bases[i] = b
+        _bases[i] = snapshot(CORPUS[i][1])
     return _bases[i]
 
 
@@ -333,6 +330,8 @@ def build_cases(maxdist, pair_kinds=None):
     items = []
     nsingle = npair = 0
     for i in range(len(CORPUS)):
+        if _bases[i]["cdef"][0] != "ok":
+            continue
         e = entry(i)
         sing = e.singles()
         cases = [(s,) for s in sing]
@@ -360,8 +359,15 @@ def build_cases(maxdist, pair_kinds=None):
 def run(ctx):
     maxdist = 1 if ctx.quick else 2
     # the reference observations are computed once here (forked workers inherit them)
+    rejected = []
     for i in range(len(CORPUS)):
-        base_of(i)
+        b = base_of(i)
+        if b["cdef"][0] != "ok":
+            # every corpus entry is accepted by the unchanged tree: a rejection is a change
+            # in cffi's behaviour on a valid cdef that already contains the construct
+            rejected.append(i)
+            ctx.violation({"kind": "corpus_rejected", "entry": CORPUS[i][0], "exc": b["cdef"][1]},
+                          {"entry": i, "name": CORPUS[i][0], "case": [], "text": CORPUS[i][1], "observed": b["cdef"][2]})
     # quick tier: the tab (same class as the blank in every regex of cparser) is inserted alone only
     pair_kinds = [k for k in INS if k != "tab"] if ctx.quick else list(INS)
     items, nsingle, npair = build_cases(maxdist, pair_kinds)
@@ -443,6 +449,10 @@ def replay(detail):
     print("corpus entry %s, insertions %r" % (e.name, [(p, k) for g, p, k in case]))
     print("original: %r" % e.text)
     print("mutated:  %r" % text)
+    if not case:
+        b = snapshot(text)
+        print("cdef of the corpus entry itself: %r" % (b["cdef"],))
+        return 1 if b["cdef"][0] != "ok" else 0
     d = compare(base_of(ei), snapshot(text))
     if d is None:
         print("no difference")
